@@ -330,3 +330,16 @@ def run(ctx: Ctx):
         rule_resize_width_first(ctx),
     ]
     return out
+
+
+from ..mutants import Mut  # noqa: E402
+
+_V = "urwid/vterm.py"
+MUTANTS = [
+    Mut("osc-strict-decode", _V, "TermCanvas.parse_osc", "decode(\"utf-8\", \"replace\")", "decode(\"utf-8\")", "EXC|", note="anchor depends on the fixed tree's decode call"),
+    Mut("csi-sanitise-declared-only", _V, "TermCanvas.parse_csi", "for i in range(len(escbuf)):", "for i in range(number_of_args):", "NULLABLE|"),
+    Mut("resize-width-stored-late", _V, "TermCanvas.resize", "        self.width = width\n\n        if height > self.height:", "        if height > self.height:", "ORDER|vterm.TermCanvas.resize"),
+    Mut("cursor-set-unclamped", _V, "TermCanvas.set_term_cursor", "self.term_cursor = self.constrain_coords(x, y)", "self.term_cursor = (x, y)", "WRITER|"),
+    Mut("insert-chars-unbalanced", _V, "TermCanvas.insert_chars", "            self.term[y].insert(x, char_spec)\n            self.term[y].pop()\n", "            self.term[y].insert(x, char_spec)\n", "PAIR|"),
+    Mut("twin-csi-sanitise-enumerate", _V, "TermCanvas.parse_csi", "            for i in range(len(escbuf)):\n                if escbuf[i] is None or escbuf[i] == 0:\n                    escbuf[i] = default_value", "            for i, _v in enumerate(escbuf):\n                if escbuf[i] is None or escbuf[i] == 0:\n                    escbuf[i] = default_value", twin=True),
+]
